@@ -166,7 +166,7 @@ def move(rng, d):
     if not free:
         return None
     c = rng.choice(free)
-    c.where = rng.choice([w for w in ('pkg', 'comp', 'comp2') if w != c.where])
+    c.where = rng.choice([w for w in ('pkg', 'comp', 'comp2', 'nested') if w != c.where])
     return ('move', c.kl, c.where)
 
 
